@@ -315,6 +315,18 @@ package core
 //@   hint after append#3 regs:     forall id string :: has(u.txStore.store, id) ==> regOk(u, id)
 //@   hint after append#3 links:    linkInv(u)
 //@   hint after append#3 newsame:  forall k string :: latestSeq(newTx, k) == oldLatest(u, newTxId, k)
+//@   hint after append#2 free:     forall i int :: 0 <= i && i < len(freeNodes) ==> pendingNode(u, freeNodes[i])
+//@   hint after append#2 txi:      txInv(tx)
+//@   hint after append#2 all:      txInv(&u.allStore)
+//@   hint after append#2 regs:     forall id string :: has(u.txStore.store, id) ==> regOk(u, id)
+//@   hint after append#2 links:    linkInv(u)
+//@   hint after append#2 newsame:  forall k string :: latestSeq(newTx, k) == oldLatest(u, newTxId, k)
+//@   hint after append#4 free:     forall i int :: 0 <= i && i < len(freeNodes) ==> pendingNode(u, freeNodes[i])
+//@   hint after append#4 txi:      txInv(tx)
+//@   hint after append#4 all:      txInv(&u.allStore)
+//@   hint after append#4 regs:     forall id string :: has(u.txStore.store, id) ==> regOk(u, id)
+//@   hint after append#4 links:    linkInv(u)
+//@   hint after append#4 newsame:  forall k string :: latestSeq(newTx, k) == oldLatest(u, newTxId, k)
 //@   hint before (*file).PopFront free:     forall i int :: 0 <= i && i < len(freeNodes) ==> pendingNode(u, freeNodes[i])
 //@   hint before (*file).PopFront distinct: forall i, j int :: 0 <= i && i < j && j < len(freeNodes) ==> freeNodes[i] != freeNodes[j]
 //@   hint before (*file).PopFront newsame:  forall k string :: latestSeq(newTx, k) == oldLatest(u, newTxId, k)
